@@ -180,6 +180,35 @@ def mon_c11(s, ctx, desc):
     return hits
 
 
+def mon_c11_slept(s, ctx, desc):
+    hits = []
+    # the worker is woken: once a thread inside shutdown() has set a worker's wake-up event (the flag is written before that), that
+    # worker cannot sleep out a time-out on this event any more - it finds the event set, or clears it and then sees the flag.
+    # (An untimed sleep is the stuck monitor's; a sleep inside user code is not a wait on the event.)
+    libs = lib_threads(s)
+    in_sd = {}
+    set_by_sd = {}          # event name -> log index of the first set() by a thread inside shutdown()
+    waiting = {}            # worker tid -> (event, index of its timed wait)
+    for i, e in enumerate(s.log):
+        t, k = e[0], e[1]
+        if k == "call" and e[2] == "shutdown":
+            in_sd[t] = in_sd.get(t, 0) + 1
+        elif k in ("ret", "raise") and e[2] == "shutdown" and in_sd.get(t):
+            in_sd[t] -= 1
+        elif k == "set" and in_sd.get(t):
+            set_by_sd.setdefault(e[2], i)
+        elif k == "wait" and t in libs and e[3] is not None and not e[4]:
+            waiting[t] = (e[2], i)
+        elif k == "woke" and t in libs and t in waiting:
+            ev, iw = waiting.pop(t)
+            if ev == e[2] and e[3] is False and ev in set_by_sd and set_by_sd[ev] < iw:
+                hits.append(hit("C11/worker-slept-through-shutdown",
+                                "%s slept out a %ss time-out on %s (wait at log %d) although shutdown() had set that event at log %d"
+                                % (libs[t], s.log[iw][3], ev, iw, set_by_sd[ev])))
+                break
+    return hits
+
+
 def mon_c11_stuck(s, ctx, desc):
     hits = []
     if s.end_reason == "idle" and not ctx.completed:
